@@ -348,13 +348,15 @@ Qed.
 (*  termination of the vectorised loops (model/M_VecLoop.v)                                *)
 (* ====================================================================================== *)
 From Coq Require Import List Bool.
+Import ListNotations.
 From PyOrb.model Require Import M_VecLoop.
 
 Lemma forallb_nth {A} (f : A -> bool) (l : list A) (d : A) :
   (forall i, (i < length l)%nat -> f (nth i l d) = true) -> forallb f l = true.
 Proof.
   induction l as [|a l IH]; intros H; simpl; [reflexivity|].
-  rewrite (H 0%nat) by (simpl; lia). simpl. apply IH.
+  assert (H0 : f a = true) by (apply (H 0%nat); simpl; lia).
+  rewrite H0. simpl. apply IH.
   intros i Hi. apply (H (S i)). simpl. lia.
 Qed.
 
@@ -400,21 +402,129 @@ Proof.
   specialize (Ht (nth i (passes k) None) (nth_In _ _ Hi)). rewrite Hn in Ht. discriminate.
 Qed.
 
-(* a concrete batch: position 0 converges geometrically, position 1 is NaN *)
-Definition demo_passes (k : nat) : list (option R) := [Some (/ 2 ^ (40 + k)); None].
+(* a concrete batch: position 0 has converged (difference 0), position 1 is NaN *)
+Definition demo_passes (k : nat) : list (option R) := [Some 0; None].
 
 Lemma demo_settles : settles 2 demo_passes.
 Proof.
   intros i Hi. exists 0%nat. intros k _. destruct i as [|[|i]]; [|reflexivity|lia].
   simpl. unfold small.
-  destruct (Rlt_dec (Rabs (/ (2 * 2 ^ (39 + k)))) eps) as [_|Hn]; [reflexivity|exfalso; apply Hn].
-  assert (H40 : 2 ^ 39 <= 2 ^ (39 + k)) by (apply Rle_pow; [lra|lia]).
-  assert (Hpos : 0 < 2 ^ (39 + k)) by (apply pow_lt; lra).
-  rewrite Rabs_right by (left; apply Rinv_0_lt_compat; lra).
-  unfold eps. apply Rlt_le_trans with (/ (2 * 2 ^ 39)).
-  - assert (0 < 2 ^ 39) by (apply pow_lt; lra).
-    destruct H40 as [Hlt|Heq].
-    + apply Rinv_lt_contravar; [apply Rmult_lt_0_compat; lra|lra].
-    + rewrite <- Heq. lra.
-  - apply Rlt_le. lra.
+  destruct (Rlt_dec (Rabs 0) eps) as [_|Hn]; [reflexivity|exfalso; apply Hn].
+  rewrite Rabs_R0. unfold eps. lra.
+Qed.
+
+(* ====================================================================================== *)
+(*  the statements of props/C07.v                                                          *)
+(* ====================================================================================== *)
+Lemma c07_on_ellipsoid : forall x y z lx ly lz,
+  0 < gen_pixel_lsq x y z lx ly lz -> 0 <= gen_pixel_disc x y z lx ly lz ->
+  on_ellipsoid A_wgs84 B_wgs84 (gen_pixel_x x y z lx ly lz) (gen_pixel_y x y z lx ly lz) (gen_pixel_z x y z lx ly lz).
+Proof.
+  intros x y z lx ly lz HQ HD. destruct (pixel_on_ray x y z lx ly lz) as (E1 & E2 & E3).
+  rewrite E1, E2, E3. exact (proj1 (roots_on_ellipsoid x y z lx ly lz HQ HD)).
+Qed.
+
+Lemma c07_near_root : forall x y z lx ly lz,
+  0 < gen_pixel_lsq x y z lx ly lz -> 0 <= gen_pixel_disc x y z lx ly lz ->
+  let d1 := gen_pixel_d1 x y z lx ly lz in
+  let d2 := pixel_d2 x y z lx ly lz in
+  (gen_pixel_x x y z lx ly lz = x + d1 * lx /\ gen_pixel_y x y z lx ly lz = y + d1 * ly /\
+   gen_pixel_z x y z lx ly lz = z + d1 * lz) /\
+  d1 <= d2 /\
+  on_ellipsoid A_wgs84 B_wgs84 (x + d2 * lx) (y + d2 * ly) (z + d2 * lz) /\
+  (forall d, on_ellipsoid A_wgs84 B_wgs84 (x + d * lx) (y + d * ly) (z + d * lz) -> d = d1 \/ d = d2).
+Proof.
+  intros x y z lx ly lz HQ HD. cbv zeta. repeat split.
+  - apply pixel_on_ray.
+  - apply pixel_on_ray.
+  - apply pixel_on_ray.
+  - apply near_root; exact HQ.
+  - exact (proj2 (roots_on_ellipsoid x y z lx ly lz HQ HD)).
+  - intros d Hd. exact (only_roots x y z lx ly lz HQ d HD Hd).
+Qed.
+
+Lemma c07_forward : forall x y z lx ly lz,
+  0 < gen_pixel_lsq x y z lx ly lz -> 0 <= gen_pixel_disc x y z lx ly lz ->
+  1 < ellipsoid_form A_wgs84 B_wgs84 x y z -> 0 < gen_pixel_ldotc x y z lx ly lz ->
+  0 < gen_pixel_d1 x y z lx ly lz.
+Proof. intros x y z lx ly lz HQ HD. exact (forward x y z lx ly lz HQ HD). Qed.
+
+Lemma c07_horizon : forall x y z lx ly lz,
+  0 < gen_pixel_lsq x y z lx ly lz -> 0 <= gen_pixel_disc x y z lx ly lz ->
+  0 <= gen_pixel_d1 x y z lx ly lz ->
+  let px := gen_pixel_x x y z lx ly lz in let py := gen_pixel_y x y z lx ly lz in
+  let pz := gen_pixel_z x y z lx ly lz in
+  0 <= (2 * px / (A_wgs84 * A_wgs84)) * (x - px) + (2 * py / (A_wgs84 * A_wgs84)) * (y - py)
+       + (2 * pz / (B_wgs84 * B_wgs84)) * (z - pz).
+Proof.
+  intros x y z lx ly lz HQ HD Hd1. cbv zeta.
+  destruct (pixel_on_ray x y z lx ly lz) as (E1 & E2 & E3). cbv zeta in E1, E2, E3.
+  rewrite E1, E2, E3.
+  pose proof (horizon_value x y z lx ly lz HQ HD) as H. cbv zeta in H. unfold bform in H.
+  match goal with |- 0 <= ?G => replace G with (2 * gen_pixel_d1 x y z lx ly lz * sqrt (gen_pixel_disc x y z lx ly lz)) end.
+  - apply Rmult_le_pos; [lra|apply sqrt_pos].
+  - rewrite <- H. unfold A_wgs84, B_wgs84. field.
+Qed.
+
+Lemma c07_miss : forall x y z lx ly lz,
+  0 < gen_pixel_lsq x y z lx ly lz ->
+  ((exists d, on_ellipsoid A_wgs84 B_wgs84 (x + d * lx) (y + d * ly) (z + d * lz))
+   <-> 0 <= gen_pixel_disc x y z lx ly lz).
+Proof.
+  intros x y z lx ly lz HQ. split.
+  - intros (d & Hd). destruct (Rle_dec 0 (gen_pixel_disc x y z lx ly lz)) as [H|H]; [exact H|].
+    exfalso. apply (miss x y z lx ly lz HQ d); [lra|exact Hd].
+  - intros HD. exists (gen_pixel_d1 x y z lx ly lz). exact (proj1 (roots_on_ellipsoid x y z lx ly lz HQ HD)).
+Qed.
+
+Lemma c07_unit : forall px py ux uy uz lat f0 f1 roll pitch yaw,
+  let nx := gen_vec_nadir_x px py lat in let ny := gen_vec_nadir_y px py lat in
+  let nz := gen_vec_nadir_z px py lat in
+  nonzero3 ux uy uz ->
+  nonzero3 (cross_x nx ny nz ux uy uz) (cross_y nx ny nz ux uy uz) (cross_z nx ny nz ux uy uz) ->
+  norm3 (gen_vectors_x px py ux uy uz lat f0 f1 roll pitch yaw) (gen_vectors_y px py ux uy uz lat f0 f1 roll pitch yaw)
+        (gen_vectors_z px py ux uy uz lat f0 f1 roll pitch yaw) = 1.
+Proof. intros. apply vectors_unit; assumption. Qed.
+
+Lemma c07_nadir : forall px py pz lat,
+  let sx := gen_subpoint_x (- px) (- py) (- pz) lat in
+  let sy := gen_subpoint_y (- px) (- py) (- pz) lat in
+  let sz := gen_subpoint_z (- px) (- py) (- pz) lat in
+  (gen_vec_nadir_x px py lat = sx / norm3 sx sy sz /\ gen_vec_nadir_y px py lat = sy / norm3 sx sy sz /\
+   gen_vec_nadir_z px py lat = sz / norm3 sx sy sz) /\
+  norm3 (gen_vec_nadir_x px py lat) (gen_vec_nadir_y px py lat) (gen_vec_nadir_z px py lat) = 1.
+Proof.
+  intros px py pz lat. cbv zeta. split; [apply nadir_is_normalised_subpoint|apply nadir_unit].
+Qed.
+
+Lemma c07_zero_angles : forall px py ux uy uz lat,
+  let nx := gen_vec_nadir_x px py lat in let ny := gen_vec_nadir_y px py lat in
+  let nz := gen_vec_nadir_z px py lat in
+  nonzero3 ux uy uz ->
+  nonzero3 (cross_x nx ny nz ux uy uz) (cross_y nx ny nz ux uy uz) (cross_z nx ny nz ux uy uz) ->
+  gen_vectors_x px py ux uy uz lat 0 0 0 0 0 = nx /\ gen_vectors_y px py ux uy uz lat 0 0 0 0 0 = ny /\
+  gen_vectors_z px py ux uy uz lat 0 0 0 0 0 = nz.
+Proof. intros. apply vectors_zero_angles; assumption. Qed.
+
+Lemma c07_yaw : forall px py ux uy uz lat f0 f1 roll pitch yaw yaw',
+  let nx := gen_vec_nadir_x px py lat in let ny := gen_vec_nadir_y px py lat in
+  let nz := gen_vec_nadir_z px py lat in
+  dot3 (gen_vectors_x px py ux uy uz lat f0 f1 roll pitch yaw) (gen_vectors_y px py ux uy uz lat f0 f1 roll pitch yaw)
+       (gen_vectors_z px py ux uy uz lat f0 f1 roll pitch yaw) nx ny nz
+  = dot3 (gen_vectors_x px py ux uy uz lat f0 f1 roll pitch yaw') (gen_vectors_y px py ux uy uz lat f0 f1 roll pitch yaw')
+         (gen_vectors_z px py ux uy uz lat f0 f1 roll pitch yaw') nx ny nz.
+Proof.
+  intros. cbv zeta. rewrite !vectors_yaw_invariant. reflexivity.
+Qed.
+
+Lemma c07_inhabited :
+  0 < gen_pixel_lsq 7000 0 0 (-1) 0 0 /\ 0 <= gen_pixel_disc 7000 0 0 (-1) 0 0 /\
+  1 < ellipsoid_form A_wgs84 B_wgs84 7000 0 0 /\ 0 < gen_pixel_ldotc 7000 0 0 (-1) 0 0 /\
+  nonzero3 0 7 0 /\
+  (forall i, (i < 2)%nat -> exists K, forall k, (K <= k)%nat -> pass_fixed (nth i (demo_passes k) None) = true).
+Proof.
+  unfold gen_pixel_disc, gen_pixel_ldotc, gen_pixel_lsq, ellipsoid_form, A_wgs84, B_wgs84. cbv zeta.
+  split; [lra|]. split; [lra|]. split; [lra|]. split; [lra|]. split.
+  - unfold nonzero3. intros (_ & H & _). lra.
+  - exact demo_settles.
 Qed.
